@@ -1,8 +1,7 @@
 (* Props/C03.v — Parsers are total and chunking-invariant on arbitrary, hostile input.
    Only statements.  Request parser: Parser/ReqModel.v (src/parser/request.rs).
    Stream parser: see the section at the end (added as its proofs complete). *)
-From FV Require Import Base.Bytes Gen.Generated Codec.Varint Codec.NV Codec.Header Codec.Bodies Codec.Vars
-  Parser.ReqModel Parser.ReqParamsSpec Parser.ReqWire Parser.ReqTargets Parser.ReqDrive Parser.ReqFinal.
+From FV Require Import Base.Bytes Gen.Generated Codec.Varint Codec.NV Codec.Header Codec.Bodies Codec.Vars Parser.ReqModel Parser.ReqParamsSpec Parser.ReqWire Parser.ReqTargets Parser.ReqDrive Parser.ReqFinal Parser.StreamModel Parser.AbsStream Parser.StreamSpec Parser.StreamRefine Parser.StreamInv Parser.StreamFinal.
 
 (* ---- request parser ---- *)
 
@@ -66,3 +65,49 @@ Example C03_example :
   run_schedule (fun b => b) 3 (new_parser 24) [2; 1; 0; 0; 0; 0; 0; 0; 9] [1; 0; 3] =
     SOk (mkParser 24 [2; 1; 0; 0; 0; 0; 0; 0; 9] (Fatal (EUnknownVersion 2))) true [] [].
 Proof. vm_compute. reflexivity. Qed.
+
+(* ==== pinned from the proof files (tools/write_props.py) ==== *)
+
+(* ---- stream parser ----  every state reachable by legal calls and accepted set_stream calls from a converted
+   parser keeps the buffer invariants (= debug_assert_invars!); every call under the caller contract returns Ok
+   or Err for ANY bytes (no panic); an Err is AbortRequest or UnknownVersion and is reported again by every
+   later call, nothing delivered, nothing emitted; over every schedule the bytes handed over are a prefix of
+   the specification content of the bytes fed (chunking-invariant by construction: K is a function of the bytes
+   alone) *)
+Theorem C03_stream_total_and_invariant :
+  forall (maxc : N) (p0 p : sp),
+  sp_inv p0 ->
+  reach maxc p0 p ->
+  (parsed_start p <= gap_start p /\
+   gap_start p <= raw_start p /\
+   raw_start p <= free_start p /\ free_start p <= len (buffer p) /\ output_start p <= len (output p)) /\
+  sp_inv p /\
+  (forall (new : bytes) (dest : option N),
+   call_legal p new dest ->
+   (exists (p' : sp) (s : status), sparse maxc p new dest = StOk p' s /\ sp_inv p') \/
+   (exists (p' : sp) (e : perr) (s : status),
+      sparse maxc p new dest = StErr p' e s /\
+      sp_inv p' /\
+      (e = EAbortRequest \/ (exists v : N, e = EUnknownVersion v)) /\
+      (forall (new' : bytes) (dest' : option N),
+       call_legal p' new' dest' ->
+       exists p'' : sp,
+         sparse maxc p' new' dest' = StErr p'' e (first_status p') /\
+         stream_buffer p'' = stream_buffer p' /\
+         output_buffer p'' = output_buffer p' /\ raw_bytes p'' = raw_bytes p' ++ new'))) /\
+  (forall ops : list cop,
+   csched_legal maxc p ops ->
+   cno_panic maxc p ops /\
+   (forall u : bytes,
+    cdelivered maxc p ops ++ stream_buffer (cfinal maxc p ops) ++ coming (cfinal maxc p ops) u =
+    stream_buffer p ++ coming p (cfed ops ++ u))).
+Proof. exact C03_stream. Qed.
+
+(* the index-level parser refines the list-level machine on every input *)
+Theorem C03_stream_refinement :
+  forall (maxc : N) (p : sp) (new : bytes) (dest : option N),
+  RI p ->
+  aparse maxc (abs p) new dest = absres (sparse maxc p new dest) /\
+  sparse_post p new dest (sparse maxc p new dest).
+Proof. exact sparse_refines. Qed.
+
